@@ -130,8 +130,9 @@ def run(ctx):
         "numpy brute-force oracle in this file (independent re-implementation of the documented formulas)",
     ]
     ctx.not_proved = [
-        "directional kernel: translated and compared by execution (spec vs kernel for the direction test and the early break is not yet a theorem); "
-        "the 3-D cone-separation premise of break-harmlessness is probed only",
+        "that the wrapper's _separate_dirs_test (cones at least 2*tol apart) implies the premise of C08_break_harmless (no pair passes two "
+        "direction tests) is probed only (false for coincident points: the known finding)",
+        "the meaning of the direction test (angle via acos of |cos|, band distance) over the reals is not restated as a theorem; it is the translated dir_test",
         "float rounding: the generic theorems hold for doubles as executed; the R-level meaning (order freedom) ignores rounding",
         "vario_estimate preprocessing (masking, no_data, sampling, direction normalisation) is property C09",
     ]
